@@ -10,6 +10,9 @@ CONSTANTS
   NEndpoints = 8
   Kinds = {"echo", "text", "data", "stream", "error", "notfound", "redirect", "status", "nocontent", "uncaught", "invalidhdr", "media"}
   NOptions = 3
+  Statuses = {200, 201, 204, 304, 101}
+  PlainShare = 1
+  NForwarding = 14
   UnderscoreNames = FALSE
 INVARIANT GeneratedAreWellFormed
 INVARIANT Emit
